@@ -86,16 +86,29 @@ def run_shard(spec, ctx):
             L = cc.presentations(rnd, X, tree, True)
             ctx.case(tuple(L), nontrivial=True)
             ctx.count('spine_cases')
-            out = eval_case(a5, tree, L, ctx, {'cells': L})
-            # the property's own observation point: set(uncompact(compact(X), R)) == set(uncompact(X, R)) for bounded cases
-            R = max(tree.res(c) for c in L)
-            lo = min(tree.res(c) for c in L)
-            if out is not None and R - lo <= 4 and lo >= 1:
+            eval_case(a5, tree, L, ctx, {'cells': L})
+        # the property's own observation point, set(uncompact(compact(X), R)) == set(uncompact(X, R)), on bounded cases; several
+        # different X under the same root, each with a foreign cell in the list, are observed one after the other
+        for _ in range(8 * spec['n']):
+            rr = rnd.randint(1, 24)
+            root = gen.random_cell(rnd, a5, rr)
+            depth = rnd.randint(2, 5)
+            R = rr + depth
+            for rep in range(3):
+                X = cc.spine(rnd, a5, root, rr, depth, rnd.random() < 0.7)
+                other = gen.random_cell(rnd, a5, rnd.randint(max(1, R - 2), R))
+                L = cc.presentations(rnd, X + [other], tree, False)
+                ctx.case(tuple(L), nontrivial=True)
+                out = eval_case(a5, tree, L, ctx, {'cells': L})
+                if out is None:
+                    continue
+                R = max(tree.res(c) for c in L)
                 try:
-                    a, b = set(a5.uncompact(list(L), R)), set(a5.uncompact(list(out), R))
+                    b = set(a5.uncompact(list(out), R))
+                    a = set(a5.uncompact(list(L), R))
                     ctx.count('uncompact_observations')
                     if a != b:
-                        ctx.fail('region_changed_via_uncompact', {'cells': L}, lost=len(a - b), added=len(b - a))
+                        ctx.fail('region_changed_via_uncompact', {'cells': L, 'R': R}, lost=len(a - b), added=len(b - a))
                 except Exception as e:
                     ctx.fail('raises', {'cells': L}, exc=repr(e))
         for _ in range(spec['n']):
